@@ -3,14 +3,17 @@ import os, json, random
 import common, sched
 
 PROP = 'C11'
-LEAN_MODULES = ['XyzProofs.Props.C11', 'XyzProofs.Props.C08Grow', 'XyzProofs.Refine.Progress', 'XyzProofs.Refine.Reaper']
+LEAN_MODULES = ['XyzProofs.Props.C11', 'XyzProofs.Props.C08Grow', 'XyzProofs.Refine.Progress', 'XyzProofs.Refine.Reaper', 'XyzProofs.Props.C10Write']
 THEOREMS = ['Conc.c11_reaper_safe', 'Conc.c11_poller_safe', 'Conc.c11_same_batch_twice', 'Conc.c11_direct_mode_counterexample',
             'Conc.c11_direct_mode_poller_counterexample', 'Conc.run_inv', 'Conc.c11_source_mode', 'Conc.c11_safe_source',
             'GrowSk.c08_grow_write_last', 'Refine.calcProgress_refines', 'Refine.missingResults_refines',
             # the waiting Reaper translated from the source (anchors_reaper.py)
-            'Reaper.reaperLoadFn_present', 'Reaper.reaperLoadFn_waiting', 'Reaper.reaperStream_full']
+            'Reaper.reaperLoadFn_present', 'Reaper.reaperLoadFn_waiting', 'Reaper.reaperStream_full',
+            # the publication mode read off the translated body of write_to_disk (anchors_checkbad.py)
+            'WriteSk.writeToDisk_eq_spec', 'WriteSk.wtd_final_only_replaced', 'WriteSk.wtd_replace_after_close',
+            'Conc.c10_publish_agrees', 'Conc.c11_source_mode_sk', 'Conc.sourceModeSk_eq', 'Conc.c11_safe_source_sk']
 ANCHORS = ['isReady', 'publishViaRename', 'tmpNamePrivate', 'tmpNameHidden', 'growSk', 'cropCalcProgress', 'cropMissingResults',
-           'reaperFiles', 'reaperLoad', 'reaperWaitToLoad', 'reaperLoadFn']
+           'reaperFiles', 'reaperLoad', 'reaperWaitToLoad', 'reaperLoadFn', 'writeToDisk']
 RULE = ("the real grow(), Crop.reap(wait=True) and progress queries run as threads of one process behind proxies of the names "
         "open / os / glob / time in xyzpy.gen.cropping; every file-system step (create, write halves, close, rename, unlink, "
         "exists, isfile, open-for-read, glob) is a scheduling point. Small configurations (1 grower + reaper + poller on 1 "
